@@ -452,14 +452,30 @@ static void workloads(long delay, int decommits) {
       shim_clock_advance_ms(adelay - 1);
       mi_collect(false);
       t_step("segments", "collect-before-delay", "none", adelay, 0, 0);
-      shim_clock_advance_ms(1);
-      f_real_arenas_collect();                                       // mi_collect(false) exactly at the expiry
-      t_step("segments", "collect-at-delay", "all", adelay, 0, 0);
+      shim_clock_advance_ms(3);
+      f_real_arenas_collect();                                       // mi_collect(false) just after the expiry
+      t_step("segments", "collect-after-delay", "all", adelay, 0, 0);
     }
     else if (delay < 0) {
       shim_clock_advance_ms(1000000);
       mi_collect(false);
       t_step("segments", "collect-much-later", "none", adelay, 0, 0);
+    }
+    counters_mark();
+    // second round: no pass at all before the delay has passed, then one non-forced collect
+    if (delay > 0) {
+      shim_clock_advance_ms(3 * adelay);
+      mi_collect(false);
+      void* r[2];
+      for (int i = 0; i < 2; i++) { r[i] = mi_malloc(18 * 1024 * 1024 + i * 8192); memset(r[i], 6, 8192); }
+      NTR = 0;
+      for (int i = 0; i < 2; i++) { mi_segment_t* s = _mi_ptr_segment(r[i]); if (s->memid.memkind == MI_MEM_ARENA) track((uint8_t*)s, mi_segment_size(s)); }
+      tracking_starts();
+      for (int i = 0; i < 2; i++) mi_free(r[i]);
+      t_step("segments2", "free", "none", adelay, 0, 0);
+      shim_clock_advance_ms(adelay + 5);
+      mi_collect(false);
+      t_step("segments2", "first-collect-after-delay", "all", adelay, 0, 0);
     }
     counters_mark();
   }
